@@ -7,6 +7,7 @@ import (
 	"errors"
 	"fmt"
 	"strings"
+	"sync"
 	"time"
 
 	"github.com/ddddddO/gtree"
@@ -219,7 +220,10 @@ func c03Op(op string, root *gtree.Node, doc string, alias bool) (res opResult, p
 	var err error
 	var rows []sut.WalkRow
 	var kept []*gtree.WalkerNode // nodes handed out are kept and read again after the walk: they must still describe their own node
+	var cbMu sync.Mutex          // (should a tree call the callback from several goroutines, the rows are merely out of order)
 	cb := func(wn *gtree.WalkerNode) error {
+		cbMu.Lock()
+		defer cbMu.Unlock()
 		if cancelCb != nil {
 			cancelCb() // the caller gives up while the walk is running
 			return nil
